@@ -4446,8 +4446,12 @@ EmitModVSib:
         mod = mod16_base_index_table[(rb_reg << 3) + rx_reg];
       }
       else {
-        if (rm_info & kX86MemInfo_Index)
+        if (rm_info & kX86MemInfo_Index) {
+          // 16-bit addressing has no scale.
+          if (ASMJIT_UNLIKELY(rm_rel->as<Mem>().shift() != 0))
+            goto InvalidAddress;
           rb_reg = rx_reg;
+        }
         mod = mod16_base_table[rb_reg];
       }
 
